@@ -159,9 +159,12 @@ class ExcelOpxWrapper(ExcelWrapper):
         self._max_col_row = {}
 
     def max_col_row(self, sheet):
-        if sheet not in self._max_col_row:
-            worksheet = self.workbook[sheet]
-            self._max_col_row[sheet] = worksheet.max_column, worksheet.max_row
+        if not self._max_col_row:
+            # measure all sheets before any range is fetched: fetching cells
+            # beyond the used area makes openpyxl create them
+            for worksheet in self.workbook:
+                self._max_col_row[worksheet.title] = (
+                    worksheet.max_column, worksheet.max_row)
         return self._max_col_row[sheet]
 
     @property
@@ -345,9 +348,11 @@ class ExcelOpxWrapper(ExcelWrapper):
                         self.from_excel):
             # work around type coercion to datetime that causes some issues
 
+            # (measured before any cell is fetched, see max_col_row)
+            max_col, max_row = self.max_col_row(sheet.title)
+
             if address.is_unbounded_range:
                 # bound the address range to the data in the spreadsheet
-                max_col, max_row = self.max_col_row(sheet.title)
                 if (max_col, max_row) == (1, 1):
                     used = AddressCell((1, 1, 1, 1), sheet=sheet.title)
                 else:
